@@ -2,8 +2,10 @@
 
 Correspondence (model ≈ code), all on a virtual clock (harness/c06_util.py):
   R  request scripts through the REAL `Resource.render_to_pipe` (-> `_render_to_pipe` ->
-     `Block1Spool.feed_and_take` / `Block2Cache.extract_or_insert` / `TimeoutDict`) behind the
-     real `pipe.error_to_message`; requests are built as a peer would build them, encoded and
+     `_render_blockwise` -> `Block1Spool.feed_and_take` / `Block2Cache.extract_or_insert` /
+     `TimeoutDict`) and the real `ObservableResource.render_to_pipe` (resources 2 and 3: one that
+     declines, one that accepts observations; the way a request takes there is compared with the
+     model's `obsEntry`) behind the real `pipe.error_to_message`; requests are built as a peer would build them, encoded and
      parsed with `Message.decode(data, remote)`; remotes are real `UDP6EndpointAddress`
      objects (real `blockwise_key`).  Lean: `BwServer.step` folded over the script.
   T  the real `TimeoutDict` vs Lean `TD` on timed get/set/del/mutate sequences.
@@ -205,7 +207,7 @@ def block_size(szx):
     return 1024 if szx == 7 else 1 << (szx + 4)
 
 
-def check_block2(gb2, R, o, mps):
+def check_block2(gb2, R, o, mps, mps_fit=None):
     """Is the observed successful response `o` a correct answer to Block2 option `gb2`
     (None: no option in the request) for rendering R = (code, opts, body)?  '' if so."""
     rcode, ropts, body = R
@@ -229,11 +231,11 @@ def check_block2(gb2, R, o, mps):
         return f"Block2 {rb2} in the response does not answer requested {gb2}"
     if gb2 is None and num != 0:
         return f"Block2 {rb2} in answer to a request without Block2"
-    if gb2 is None and len(body) <= mps:
+    if gb2 is None and len(body) <= (mps if mps_fit is None else mps_fit):
         # the answered request states no block size wish (one sent with an earlier Block1 block does
         # not count) and nothing forces the server to cut
         return (f"response cut into blocks ({rb2}) although the request carries no Block2 option and the "
-                f"rendering of {len(body)} bytes fits the maximum payload size {mps}")
+                f"rendering of {len(body)} bytes fits the maximum payload size")
     start = num * block_size(szx)
     if start >= len(body) and not (len(body) == 0 and num == 0):
         return f"block {num} starts at {start}, beyond the body of {len(body)} bytes, but was served"
@@ -270,6 +272,9 @@ class Reference:
         ep = self.eps[st["ep"]]
         ident = (tuple(ep[0]), ep[1])
         mps = ep[2]
+        # a script may describe one endpoint twice with different maximum payload sizes (the blocks of
+        # one body then arrive with different values): "fits" is judged against the smallest of them
+        mps_fit = min(e[2] for e in self.eps if (tuple(e[0]), e[1]) == ident)
         opts = hexopts(st["opts"])
         key = (st["res"], ident, st["code"], cache_key_opts(opts))
         payload = mk_bytes(st["payload"])
@@ -377,12 +382,13 @@ class Reference:
         # (RFC 7959 2.3: the Block2 option of the request that gets the response; aiocoap's own client
         # repeats a block size wish on every Block1 block).
         gb2 = st["b2"]
-        v = self.stage2(now, key, gb2, R, o, seen, body, st, mps, hexc, commit=False)
+        v = self.stage2(now, key, gb2, R, o, seen, body, st, (mps, mps_fit), hexc, commit=False)
         if v == "":
-            self.stage2(now, key, gb2, R, o, seen, body, st, mps, hexc, commit=True)
+            self.stage2(now, key, gb2, R, o, seen, body, st, (mps, mps_fit), hexc, commit=True)
         return v
 
-    def stage2(self, now, key, gb2, R, o, seen, body, st, mps, hexc, commit):
+    def stage2(self, now, key, gb2, R, o, seen, body, st, mpss, hexc, commit):
+        mps, mps_fit = mpss
         fresh = gb2 is None or gb2[0] == 0
         if fresh:
             if len(seen) != 1:
@@ -401,7 +407,7 @@ class Reference:
                 if commit:
                     self.rend.pop(key, None)
                 return ""
-            v = check_block2(gb2, R, o, mps)
+            v = check_block2(gb2, R, o, mps, mps_fit)
             if v:
                 return v
             if st["b1"] is not None and o["b1"] != (st["b1"][0], 1 if st["b1"][1] else 0, st["b1"][2]):
